@@ -12,6 +12,9 @@ package bbr
 // Scenario classes (vlib/props/C12.py): clean / lossy / probertt / applimited at 0.6..2.5 MB/s; slow-* = 20..200 KB/s
 // bottlenecks (pacing rate below the 64 KB/s floor once STARTUP is left); smallmax* = newBbrSender with a small configured
 // maximum / initial window and fat = NewBbrSender on 150..400 MB/s x 80..150 ms (gain x BDP above the maximum window).
+// The throughput verdict ("does not settle far below capacity on a loss-free path", windows of delivered / capacity) runs over
+// capacity (clean, clean-fast-*), ack aggregation (clean-agg) and the RTT extremes: clean-lan = 0.1..0.9 ms (rttUs) at
+// 3..40 Gbit/s with a bandwidth-delay product of 300..1000 datagrams, clean-far = 0.5..2 s at moderate capacity.
 
 import (
 	"fmt"
